@@ -75,12 +75,30 @@ func TestC10(t *testing.T) {
 					ht.Note(k)
 
 					ct := ctxs[e.Rng.Intn(len(ctxs))]
-					jit, r, drew := jm.Next(ct)
 					c := ctx
 
-					if ct != 0 {
-						c = cache.WithTTL(ctx, time.Duration(ct), false)
+					switch e.Rng.Intn(3) {
+					case 0:
+						// a chain of contexts: deriving a child with its own TTL (updateExisting=false) must leave
+						// the parent's TTL alone, whichever of the two is used for the write
+						pt, qt := ctxs[e.Rng.Intn(len(ctxs))], ctxs[e.Rng.Intn(len(ctxs))]
+						parent := cache.WithTTL(ctx, time.Duration(pt), false)
+						child := cache.WithTTL(parent, time.Duration(qt), false)
+
+						if e.Rng.Intn(2) == 0 {
+							c, ct = parent, pt
+						} else {
+							c, ct = child, qt
+						}
+
+						cf.Count("ctx:chain", 1)
+					default:
+						if ct != 0 {
+							c = cache.WithTTL(ctx, time.Duration(ct), false)
+						}
 					}
+
+					jit, r, drew := jm.Next(ct)
 
 					now := time.Now().UnixNano()
 					_ = b.Write(c, k, int64(w+1))
